@@ -67,14 +67,20 @@ def run(prop, tier, seed, t0, replay):
         outs = list(ex.map(work, range(nproc)))
     # Windows half, as far as it can run here: process_start of process.windows.c on stubbed Win32 functions
     # from four threads at once, each with its own handles (ThreadSanitizer build of src/win.c --mt)
-    winbin = build.build_win("tsan")
-    wsc = os.path.join(scratch_root, "win")
-    os.makedirs(wsc, exist_ok=True)
-    we = dict(env)
-    we["TSAN_OPTIONS"] = "halt_on_error=0:log_path=%s/tsan" % wsc
-    wrc, wout, werr = core.run_timed([winbin, "--mt", "0", "1", str(3000 if tier == "quick" else 60000), str(seed)], we, 900)
-    for f in glob.glob(os.path.join(wsc, "tsan*")):
-        werr += open(f, errors="replace").read()
+    wrc, wout, werr = 0, "", ""
+    try:
+        winbin = build.build_win("tsan")
+    except build.Inconclusive as e:
+        winbin = None
+        print("note: Windows multi-thread pass not built: %s" % str(e).splitlines()[-1][:200])
+    if winbin:
+        wsc = os.path.join(scratch_root, "win")
+        os.makedirs(wsc, exist_ok=True)
+        we = dict(env)
+        we["TSAN_OPTIONS"] = "halt_on_error=0:log_path=%s/tsan" % wsc
+        wrc, wout, werr = core.run_timed([winbin, "--mt", "0", "1", str(3000 if tier == "quick" else 60000), str(seed)], we, 900)
+        for f in glob.glob(os.path.join(wsc, "tsan*")):
+            werr += open(f, errors="replace").read()
     win_starts = 0
     shutil.rmtree(scratch_root, ignore_errors=True)
     names = ["children", "bytes_verified", "violations", "strerror_calls", "descriptor_tables_ok", "eof_and_length_ok", "concurrent_starts"]
